@@ -518,7 +518,9 @@ X05V(r) == FirstFail(<<
 \* A record of kind "blocks" (any property that speaks about the lines of a section): the section under test was laid out so that
 \* block boundaries of every power-of-two size fall right behind, just after and inside its lines (harness/chartgen.py,
 \* block_aligned_chart); r.a = digest of what was written, r.b = digest of what the parsed chart holds.
-BlocksV(r) == FirstFail(<< <<"same-events-wherever-a-block-boundary-falls", r.a = r.b>> >>)
+\* (also used, with another r.what, for the few families whose numbers do not fit TLC's 32-bit integers even as differences:
+\*  r.a = digest of what the lines say, r.b = digest of what the parsed chart holds, r.what = the clause)
+BlocksV(r) == FirstFail(<< <<r.what, r.a = r.b>> >>)
 
 VerdictOf(p, r) ==
   IF "kind" \in DOMAIN r /\ r.kind = "blocks" THEN BlocksV(r) ELSE
